@@ -501,11 +501,13 @@ func (c *checker) checkC14(plan *GCPlan, rep *GCReport) {
 		c.fail(P, "gc-left-old-lock", "gc", "GC to safe point %d (scan limit %d, concurrency %d) reported success but locks at or below the safe point remain: %v", rep.SafePoint, plan.ScanLimit, plan.Concurrency, rep.LocksAfter)
 	}
 	if rep.GCErr == "" && rep.SafePoint > 1 {
-		if rep.BelowErr != "aborted-by-gc" {
+		// served, or failed for another reason although no fault was injected (a read that an injected fault made fail
+		// was not served either)
+		if rep.BelowErr != "aborted-by-gc" && (rep.BelowErr == "" || !rep.BelowFaulty) {
 			c.fail(P, "read-below-safe-point-served", "safepoint", "a snapshot read at ts %d below the cached transaction safe point %d returned %q instead of the aborted-by-GC error", rep.SafePoint-1, rep.SafePoint, rep.BelowErr)
 		}
 		for i, r := range rep.BelowSeq {
-			if !strings.HasSuffix(r, "=aborted-by-gc") {
+			if strings.HasSuffix(r, "=served") {
 				c.fail(P, "read-below-safe-point-served", "safepoint-repeated", "read #%d of the sequence %v on one snapshot / transaction at ts %d, below the cached transaction safe point %d, was not refused with the aborted-by-GC error", i+1, rep.BelowSeq, rep.SafePoint-1, rep.SafePoint)
 				break
 			}
@@ -515,7 +517,7 @@ func (c *checker) checkC14(plan *GCPlan, rep *GCReport) {
 		}
 	}
 	if rep.GCErr == "" && rep.MovedChecked {
-		if rep.MovedErr != "aborted-by-gc" {
+		if rep.MovedErr != "aborted-by-gc" && (rep.MovedErr == "" || !rep.MovedFaulty) {
 			c.fail(P, "read-below-learned-safe-point-served", "safepoint-moved-"+rep.MovedKind, "a snapshot %s at ts %d returned %q although the store had learned the safe point %d before the last response of that read arrived (expected the aborted-by-GC error)", rep.MovedKind, rep.SafePoint, rep.MovedErr, rep.SafePoint+16)
 		}
 	}
